@@ -147,13 +147,14 @@ class Exploding:
 @symx("C10-crash-points", timeout=900, kind="P", functions=F_L + ["rich/progress.py:Progress.start", "rich/progress.py:Progress.stop",
                                                                  "rich/status.py:Status"],
       bounds="Live / Progress / Status blocks x exception raised by the renderable at its i-th render (i in 0..3) or by the body at "
-             "statement 0..2 of a 3-statement block x transient (solver-enumerated, native): the exception propagates, sys.stdout / "
+             "statement 0..2 of a 3-statement block x transient x a partial line pending in the redirected stdout or not (solver-enumerated, native): the exception propagates, sys.stdout / "
              "sys.stderr are the original objects again, the render-hook stack is empty and the cursor is shown again")
 def c10_crash(e):
     kind = int(e.mk("kind", 0, 2))
     where = int(e.mk("where", 0, 1))      # 0: renderable raises, 1: body raises
     at = int(e.mk("at", 0, 3))
     transient = bool(e.mkbool("transient"))
+    pending = bool(e.mkbool("pending_partial_line"))     # text without a newline waiting in the redirected stdout at the fault
     c = mk_console()
     out0, err0 = sys.stdout, sys.stderr
     raised = False
@@ -161,6 +162,8 @@ def c10_crash(e):
         if kind == 0:
             rend = Exploding(at) if where == 0 else Text("fine")
             with Live(rend, console=c, auto_refresh=False, transient=transient) as live:
+                if pending:
+                    sys.stdout.write("zz")
                 for stmt in range(3):
                     if where == 1 and stmt == at:
                         raise Boom()
@@ -169,6 +172,8 @@ def c10_crash(e):
         elif kind == 1:
             with Progress(console=c, auto_refresh=False, transient=transient) as prog:
                 task = prog.add_task("t", total=3)
+                if pending:
+                    sys.stdout.write("zz")
                 for stmt in range(3):
                     if where == 1 and stmt == at:
                         raise Boom()
